@@ -229,22 +229,74 @@ theorem reachable_valid_partial (st : St) (ops : List Op) (hv : Valid st) (hc : 
   | cons op ops ih =>
     exact ih (step st op).1 (step_valid_partial st op hv hc.1 hc.2.1) hc.2.2
 
+/-! ## T9.1t / T9.2t — the tree alone, with fewer exclusions -/
+
+/-- **T9.1t** the two findings about dropped objects (an @charset object that is merged, rules replaced by a text)
+do not touch the sheet's tree: order, nested kinds and the parent links of every rule IN the tree are kept by every
+operation outside the two order regions and the two nested-kind regions — in particular by every `cssText = …` of the
+sheet or of a nested rule, accepted or refused, whatever was there before. -/
+theorem step_tree_partial (st : St) (op : Op) (hv : ValidTree st) (hs : OpOK op) (hr : ¬ TreeRegion st op) :
+    ValidTree (step st op).1 := by
+  have hord : ¬ OrderRegion st op := fun h => hr (Or.inl h)
+  have hnest : ¬ NestedRegion st op := fun h => hr (Or.inr h)
+  have htop := step_order_partial st op hv.top hord
+  have hl : Live st := ⟨hv.kids, hv.links, hv.ids⟩
+  suffices h : Live (step st op).1 from ⟨htop, h.kids, h.links, h.ids⟩
+  cases op with
+  | insert s i v => exact insertRule_live st s i false v _ hl (by rcases hs with hs | hs; exact Or.inl hs; exact Or.inr hs)
+  | add s v => exact insertRule_live st s none true v _ hl (by rcases hs with hs | hs; exact Or.inl hs; exact Or.inr hs)
+  | insertOrdered s i v =>
+    exact insertRule_live st s (some i) true v _ hl (by rcases hs with hs | hs; exact Or.inl hs; exact Or.inr hs)
+  | delete i => exact deleteRule_live st i hl
+  | setEncoding e v => exact setEncoding_live st e v hl
+  | setText specs => exact setText_live st specs hl
+  | nsSet p u => exact nsSet_live st p u hl
+  | nsDel p => exact nsDel_live st p hl
+  | nInsert path s i v =>
+    apply nInsert_live st path s i v hl (by rcases hs with hs | hs; exact Or.inl hs; exact Or.inr hs)
+    intro c hc hrej
+    cases hal : allowedIn c.kind s.kind with
+    | true => rfl
+    | false =>
+      exfalso; apply hnest
+      simp [NestedRegion, nestedRegionB, hc, hrej, hal]
+  | nDelete path i => exact nDelete_live st path i hl
+  | nSetText path kids => exact nSetText_live st path kids hl
+  | setMode b => exact ⟨hl.kids, hl.links, hl.ids⟩
+
+/-- **T9.2t** … for histories of any length -/
+theorem reachable_tree_partial (st : St) (ops : List Op) (hv : ValidTree st) (hc : CleanTree st ops) :
+    ValidTree (run st ops) := by
+  induction ops generalizing st with
+  | nil => exact hv
+  | cons op ops ih =>
+    exact ih (step st op).1 (step_tree_partial st op hv hc.1 hc.2.1) hc.2.2
+
+/-- non-vacuity: a history with a text replace on a non-empty sheet, a merged @charset object and a text replace on
+a non-empty @media rule (all three inside `Region`, outside `TreeRegion`) -/
+example :
+    let ops : List Op := [.add (charsetS 0x61) false, .add styleS false, .add (mediaS [styleS]) false,
+      .add (charsetS 0x62) false, .nSetText [2] [commentS, styleS], .setText [importS, mediaS [pageS [marginS 1]], styleS],
+      .nSetText [1, 0] [marginS 2]]
+    CleanTree St.empty ops ∧ ¬ Clean St.empty ops ∧ (run St.empty ops).rules.length = 3 := by
+  decide +kernel
+
 /-! ## T9.3 — serialising and reparsing a valid sheet loses no rule -/
 
-/-- **T9.3** for every structurally valid sheet whose rules each survive a round trip on their own (`roundTrips`:
+/-- **T9.3** for every sheet whose tree is structurally valid (`ValidTree`; every `Valid` state is) and whose rules each survive a round trip on their own (`roundTrips`:
 selectors use declared namespaces, an @page rule holds each margin once, @namespace rules have a URI) and whose
 @namespace rules are all effective (`NsClean`, the state `_cleanNamespaces` leaves): parsing the serialisation —
 the dispatcher with its ordering levels 0..3 and the `S` bump, one `insertRule` per statement, the nested parsers of
 @media and @page, the final `_cleanNamespaces`, all in log-only mode — gives back the same tree of rule kinds, at
 every depth. No rule is lost to an ordering or nesting error. (Serialisation itself is the identity on rule
 descriptions here; that a single rule's text parses back to that rule is C03 and is exercised by the oracle.) -/
-theorem reparse_keeps_all (st : St) (hv : Valid st) (hns : NsClean st.rules)
+theorem reparse_keeps_all (st : St) (hv : ValidTree st) (hns : NsClean st.rules)
     (hrt : ∀ r ∈ st.rules, r.roundTrips (nsUris st.rules) = true) :
     Rule.shapes (reparse st).rules = Rule.shapes st.rules :=
   (reparse_rules st hv.top hv.kids hns hrt).1
 
 /-- … in particular the list of kinds of the sheet's own list -/
-theorem reparse_keeps_kinds (st : St) (hv : Valid st) (hns : NsClean st.rules)
+theorem reparse_keeps_kinds (st : St) (hv : ValidTree st) (hns : NsClean st.rules)
     (hrt : ∀ r ∈ st.rules, r.roundTrips (nsUris st.rules) = true) :
     kindsOf (reparse st).rules = kindsOf st.rules :=
   (reparse_rules st hv.top hv.kids hns hrt).2
